@@ -1,8 +1,147 @@
+import Corro.Model.Crdt
 import Driver.Util
-/-! Driver stub for C01: not built yet. -/
+/-! Driver for C01: the `c*` op family (plain cr-sqlite databases). -/
 namespace Driver.C01
-abbrev State := Unit
-def init : State := ()
-def step (st : State) (_toks : List String) : Option (State × String) := some (st, "bad-op")
+open Corro.Crdt
+
+def hexDigit (c : Char) : Option Nat :=
+  if '0' ≤ c ∧ c ≤ '9' then some (c.toNat - '0'.toNat)
+  else if 'a' ≤ c ∧ c ≤ 'f' then some (c.toNat - 'a'.toNat + 10) else none
+
+def parseHex : List Char → Option (List Nat)
+  | [] => some []
+  | [_] => none
+  | a :: b :: rest => do
+    let x ← hexDigit a; let y ← hexDigit b; let r ← parseHex rest
+    pure ((x * 16 + y) :: r)
+
+def hexOf (n : Nat) : String :=
+  let d (k : Nat) : Char := if k < 10 then Char.ofNat (48 + k) else Char.ofNat (87 + k)
+  String.ofList [d (n / 16), d (n % 16)]
+
+def showHex (bs : List Nat) : String := String.join (bs.map hexOf)
+
+def parseVal (s : String) : Option Val :=
+  match s.toList with
+  | ['n'] => some .null
+  | 'i' :: rest => (String.ofList rest).toInt?.map Val.int
+  | 't' :: rest => (parseHex rest).map Val.text
+  | 'b' :: rest => (parseHex rest).map Val.blob
+  | _ => none
+
+def showVal : Val → String
+  | .null => "n"
+  | .int i => s!"i{i}"
+  | .text b => "t" ++ showHex b
+  | .blob b => "b" ++ showHex b
+
+def showChg (c : Chg) : String :=
+  s!"{c.tbl}/{c.pk}/{c.cid}={showVal c.val}@{c.colv}.{c.cl}.{c.site}.{c.dbv}.{c.seq}"
+
+def showChgs (cs : List Chg) : String := showList (cs.map showChg) ";"
+
+def insertSorted (lt : α → α → Bool) (x : α) : List α → List α
+  | [] => [x]
+  | y :: ys => if lt x y then x :: y :: ys else y :: insertSorted lt x ys
+
+def sortBy (lt : α → α → Bool) (xs : List α) : List α := xs.foldl (fun acc x => insertSorted lt x acc) []
+
+def keyLt (a b : Chg) : Bool :=
+  a.tbl < b.tbl ∨ (a.tbl = b.tbl ∧ (a.pk < b.pk ∨ (a.pk = b.pk ∧ a.cid < b.cid)))
+
+def dump (db : Db) : String :=
+  let chs := sortBy keyLt db.changes
+  let rowsOf (tbl : String) : List String :=
+    match tableCols tbl with
+    | none => []
+    | some cols =>
+      sortBy (fun (a b : String) => a < b) <|
+        (db.rows.filter (fun r => r.tbl = tbl ∧ r.cl % 2 = 1)).map fun r =>
+          let vals := cols.map fun c => match r.findCell c with | some x => showVal x.val | none => "n"
+          s!"{tbl}/{r.pk}:" ++ ",".intercalate vals
+  let rows := rowsOf "k" ++ rowsOf "t" ++ rowsOf "u"
+  showChgs chs ++ " | " ++ showList rows ";"
+
+/-- stored == written: no integers into TEXT-affinity columns, only integers/NULL into `b` -/
+def typeOk (c : String) : Val → Bool
+  | .null => true
+  | .int _ => c == "b"
+  | .text _ => c == "a" || c == "x"
+  | .blob _ => c == "a" || c == "x"
+
+def parseAssigns (s : String) : Option (List (String × Val)) :=
+  (splitList s).mapM fun kv =>
+    match kv.splitOn "=" with
+    | [c, v] => (parseVal v).bind fun x => if typeOk c x then some (c, x) else none
+    | _ => none
+
+def pkOk (tbl pk : String) : Bool :=
+  let n := (pk.splitOn "+").length
+  ((pk.splitOn "+").all (fun t => (parseVal t).isSome)) &&
+  (match tbl with | "u" => n == 2 | "t" => n == 1 | "k" => n == 1 | _ => false)
+
+def parseStmt (s : String) : Option Stmt :=
+  match s.splitOn ":" with
+  | ["ins", tbl, pk] => if pkOk tbl pk then some (.ins tbl pk []) else none
+  | ["ins", tbl, pk, a] => do
+      let cols ← tableCols tbl
+      let asg ← parseAssigns a
+      if pkOk tbl pk ∧ asg.all (fun x => cols.contains x.1) then some (.ins tbl pk asg) else none
+  | ["upd", tbl, pk, a] => do
+      let cols ← tableCols tbl
+      let asg ← parseAssigns a
+      if pkOk tbl pk ∧ ¬ asg.isEmpty ∧ asg.all (fun x => cols.contains x.1) then some (.upd tbl pk asg) else none
+  | ["del", tbl, pk] => if pkOk tbl pk then some (.del tbl pk) else none
+  | _ => none
+
+structure State where
+  dbs : List Db := []                              -- index = site
+  log : List ((Nat × Nat) × List Chg) := []        -- original change list of (site, version)
+
+def init : State := {}
+
+def State.db (st : State) (i : Nat) : Db :=
+  match st.dbs.find? (·.site = i) with | some d => d | none => { site := i }
+
+def State.setDb (st : State) (d : Db) : State :=
+  if st.dbs.any (·.site = d.site) then { st with dbs := st.dbs.map (fun x => if x.site = d.site then d else x) }
+  else { st with dbs := st.dbs ++ [d] }
+
+def parseSeqs (s : String) : Option (Nat × Nat) :=
+  if s = "all" then some (0, 1000000000) else range? s
+
+def dbIdx (s : String) : Option Nat := s.toNat?.filter (· < 8)
+
+def step (st : State) (toks : List String) : Option (State × String) :=
+  match toks with
+  | ["cw", db, stmts] => do
+    let i ← dbIdx db
+    let ss ← (stmts.splitOn ";").mapM parseStmt
+    match localTx (st.db i) ss with
+    | .error .constraint => pure (st, "err constraint")
+    | .error .badOp => none
+    | .ok (_, none) => pure (st, "noop")
+    | .ok (d, some (ver, chs)) =>
+      pure ({ st.setDb d with log := ((i, ver), chs) :: st.log }, s!"ok v={ver} {showChgs chs}")
+  | ["cm", dst, frm, site, ver, seqs] => do
+    let d ← dbIdx dst; let f ← dbIdx frm; let s ← dbIdx site; let v ← ver.toNat?
+    let (lo, hi) ← parseSeqs seqs
+    let chs := sortBySeq ((st.db f).changesOf s v lo hi)
+    let nd := mergeAll (st.db d) chs
+    pure (st.setDb nd, s!"ok n={chs.length} | {dump nd}")
+  | ["co", dst, site, ver, seqs] => do
+    let d ← dbIdx dst; let s ← dbIdx site; let v ← ver.toNat?
+    let (lo, hi) ← parseSeqs seqs
+    match st.log.find? (·.1 = (s, v)) with
+    | none => pure (st, "err no-such-version")
+    | some (_, all) =>
+      let chs := all.filter (fun c => lo ≤ c.seq ∧ c.seq ≤ hi)
+      let nd := mergeAll (st.db d) chs
+      pure (st.setDb nd, s!"ok n={chs.length} | {dump nd}")
+  | ["dump", db] => do
+    let i ← dbIdx db
+    pure (st, dump (st.db i))
+  | _ => none
+
 end Driver.C01
 def main : IO Unit := Driver.runLoop Driver.C01.init Driver.C01.step
